@@ -91,7 +91,9 @@ def e2e_item(c):
         toks = toks_term(t, c["extra"]["tokens"], ids)
         bs = "[" + "; ".join("%d%%N" % ids[b] for b in (base.get("bindings") or [])) + "]"
         oc = {"ok": 0, "parse": 1, "exec": 2, "panic": 3}.get(res["outcome"], 9)
-        return "e2e13_verdict " + T.VM + " %s %s %s true %d%%N %s" % (toks, bs, t.rowlist(base.get("rows") or [], ids), oc,
+        # CONSTRUCT / DECONSTRUCT: the kept solutions are read back from a graph, their order means nothing
+        exact = "false" if c["shape"] in ("construct", "deconstruct") else "true"
+        return "e2e13_verdict " + T.VM + " %s %s %s %s %d%%N %s" % (toks, bs, t.rowlist(base.get("rows") or [], ids), exact, oc,
                                                           t.rowlist(res.get("rows") or [], ids))
     return f
 
